@@ -228,10 +228,11 @@ func c02Mutants(rng *rand.Rand, ps ref.ParamSet, others []ref.ParamSet, pw, salt
 }
 
 func c02() {
-	R := vr.New("C02", "mutants", "for each of 4 parameter sets (both algorithms) a reference-written canonical record and systematic mutants of it (fields emptied/swapped, truncation at every length, separators added/removed, control bytes, digest/salt truncated/extended/re-encoded/bit-flipped, other algorithm/set ids, numeric edges, huge lines, random bytes, directory), each tried with the right, the empty and a wrong password and then put through list/list-full/add/update/remove. Non-trivial: a mutant whose bytes differ from the canonical record; distinct by (set, file bytes)")
+	R := vr.New("C02", "mutants", "for each of 4 parameter sets (both algorithms) a reference-written canonical record and systematic mutants of it (fields emptied/swapped, truncation at every length, separators added/removed, control bytes, digest/salt truncated/extended/re-encoded/bit-flipped, other algorithm/set ids, numeric edges, huge lines, random bytes, directory), each tried with the right, the empty and a wrong password and then put through list/list-full/add/update/remove; plus reference-written records for a fixed matrix of 11 parameter-set shapes (scrypt r/p given, omitted or zero independently; argon2id threads 1-4, lengths 16-64) which must authenticate with their password only. Non-trivial: a mutant whose bytes differ from the canonical record; distinct by (set, file bytes)")
 	defer R.Write()
 	root := filepath.Join(workDir(), "c02")
 	os.RemoveAll(root) //nolint:errcheck
+	c02Foreign(R, root)
 	nrounds := vr.Pick(1, 4)
 	for round := 0; round < nrounds; round++ {
 		rng := R.Rand(fmt.Sprintf("round%d", round))
@@ -288,6 +289,105 @@ func c02() {
 			}
 		}
 	}
+}
+
+// c02Foreign: records written by the reference implementation for a fixed matrix of parameter-set configurations
+// (optional scrypt r / p given, omitted or zero, independently; several argon2id shapes) must authenticate with
+// their password and with nothing else.
+func c02Foreign(R *vr.Result, root string) {
+	rng := R.Rand("foreign")
+	base := filepath.Join(root, "foreign", "base")
+	os.MkdirAll(base, 0700) //nolint:errcheck
+	cfg := filepath.Join(root, "foreign", "store.yml")
+	key := func() []byte { k := make([]byte, 32); rng.Read(k); return k }
+	all := []ref.ParamSet{
+		{ID: 1, Algo: ref.AlgoScrypt, HmacKey: key(), Cost: 2, ROmit: true, POmit: true},
+		{ID: 2, Algo: ref.AlgoScrypt, HmacKey: key(), Cost: 3, R: 2, POmit: true},
+		{ID: 3, Algo: ref.AlgoScrypt, HmacKey: key(), Cost: 2, ROmit: true, P: 3},
+		{ID: 4, Algo: ref.AlgoScrypt, HmacKey: key(), Cost: 4, R: 3, P: 2},
+		{ID: 5, Algo: ref.AlgoScrypt, HmacKey: key(), Cost: 2, R: 16, P: 0},
+		{ID: 6, Algo: ref.AlgoScrypt, HmacKey: key(), Cost: 2, R: 0, P: 4},
+		{ID: 7, Algo: ref.AlgoScrypt, HmacKey: key(), Cost: 1, R: 1, P: 1},
+		{ID: 8, Algo: ref.AlgoArgon, Time: 1, Memory: 8, Threads: 1, Length: 16},
+		{ID: 9, Algo: ref.AlgoArgon, Time: 2, Memory: 32, Threads: 2, Length: 32},
+		{ID: 10, Algo: ref.AlgoArgon, Time: 1, Memory: 64, Threads: 4, Length: 64},
+		{ID: 11, Algo: ref.AlgoArgon, Time: 3, Memory: 24, Threads: 3, Length: 20},
+	}
+	os.WriteFile(cfg, []byte(ref.YAML(base, 1, all)), 0600) //nolint:errcheck
+	d, err := store.NewDirFromConfig(cfg)
+	if err != nil {
+		R.Violate("c02:config-rejected", "generated valid config rejected: "+err.Error(), "foreign", ref.YAML(base, 1, all))
+		return
+	}
+	for _, ps := range all {
+		for k := 0; k < vr.Pick(3, 12); k++ {
+			id := fmt.Sprintf("foreign/set%d/%d", ps.ID, k)
+			if !R.Want(id) {
+				continue
+			}
+			R.Mark(id)
+			pw := ref.Password(rng)
+			if len(pw) > 300 {
+				pw = pw[:300]
+			}
+			salt := make([]byte, ps.SaltLen())
+			rng.Read(salt)
+			u := fmt.Sprintf("f%d-%d", ps.ID, k)
+			rec := ps.Record(pw, salt, time.Now().Unix()-int64(rng.Intn(1000000)))
+			os.WriteFile(filepath.Join(base, u+".user"), []byte(rec+"\n"), 0600) //nolint:errcheck
+			var ok bool
+			var aerr error
+			if p := vr.Safe(func() { ok, _, _, _, aerr = d.Authenticate(u, string(pw)) }); p != "" {
+				R.Violate("c02:panic:authenticate", p, id, rec)
+			}
+			R.Count("foreign_records", 1)
+			R.Count("must_accept_cases", 1)
+			shape := fmt.Sprintf("%s:r=%s,p=%s", ps.Algo, c02Shape(ps.R, ps.ROmit), c02Shape(ps.P, ps.POmit))
+			if ps.Algo == ref.AlgoArgon {
+				shape = fmt.Sprintf("%s:threads=%d,len=%d", ps.Algo, ps.Threads, ps.Length)
+			}
+			if !ok {
+				R.Violate("c02:foreign-record-rejected:"+shape, fmt.Sprintf("record written by the reference implementation for parameter set %d does not authenticate with its password: %v", ps.ID, aerr), id, map[string]any{"record": rec, "pw": vr.Q(string(pw)), "config": ref.YAML(base, 1, all)})
+			}
+			for _, c := range ref.NearMisses(rng, pw, false) {
+				if ps.SamePassword(c, pw) {
+					continue
+				}
+				var ok2 bool
+				vr.Safe(func() { ok2, _, _, _, _ = d.Authenticate(u, string(c)) })
+				R.Count("must_reject_cases", 1)
+				if ok2 {
+					R.Violate("c02:foreign-record-accepts-other-password:"+shape, fmt.Sprintf("set %d: candidate %s accepted for a record of %s", ps.ID, vr.Q(string(c)), vr.Q(string(pw))), id, rec)
+				}
+			}
+			// a digest computed with the defaults of the optional parameters must NOT authenticate when they are configured
+			if ps.Algo == ref.AlgoScrypt {
+				if r, pp := ps.R, ps.P; (r > 0 && r != 8) || (pp > 0 && pp != 1) {
+					dflt := ps
+					dflt.R, dflt.P, dflt.ROmit, dflt.POmit = 0, 0, true, true
+					os.WriteFile(filepath.Join(base, u+".user"), []byte(dflt.Record(pw, salt, time.Now().Unix())+"\n"), 0600) //nolint:errcheck
+					var ok3 bool
+					vr.Safe(func() { ok3, _, _, _, _ = d.Authenticate(u, string(pw)) })
+					R.Count("must_reject_cases", 1)
+					if ok3 {
+						R.Violate("c02:digest-of-other-parameters-accepted:"+shape, fmt.Sprintf("set %d: a digest computed with r=8 p=1 authenticates although the set configures r=%d p=%d", ps.ID, r, pp), id, nil)
+					}
+				}
+			}
+			R.Case(fmt.Sprintf("foreign/%d/%x", ps.ID, rec), true)
+			os.Remove(filepath.Join(base, u+".user")) //nolint:errcheck
+		}
+	}
+}
+
+func c02Shape(v int, omit bool) string {
+	switch {
+	case omit:
+		return "omitted"
+	case v == 0:
+		return "zero"
+	}
+	return "given"
 }
 
 // timed runs f and reports a hang if it does not return within the (very generous) limit twice.
